@@ -535,6 +535,16 @@ fn process_tags(
                     }
                 } else {
                     if let (Some(el), Err(err)) = (el, gen_result) {
+                        if err.is_limit_error() {
+                            // Exceeding a configured limit is final. Retrying could only
+                            // 'succeed' from state left behind by the failed attempt
+                            // (e.g. an already-advanced loop counter), silently dropping
+                            // output, and repeats the work at every nesting level.
+                            return Err(match err {
+                                SvgdxError::MultiError(_) => err,
+                                _ => SvgdxError::MultiError(HashMap::from([(idx, (el, err))])),
+                            });
+                        }
                         if let SvgdxError::MultiError(err_list) = err {
                             for (idx, (el, err)) in err_list {
                                 element_errors.insert(idx, (el, err));
